@@ -185,3 +185,6 @@ pub assume_specification<T: PartialEq> [<[T]>::contains] (s: &[T], x: &T) -> (r:
 pub fn vx_unreachable() -> !
     requires false, // OBL:C13.fs_worker.a_watcher_exists_whenever_paths_are_applied
 { unimplemented!() }
+// std::mem::discriminant on the watcher kind: which variant, not its payload
+pub open spec fn watcher_variant(w: Watcher) -> int { match w { Watcher::Native => 0, Watcher::Poll(_) => 1 } }
+pub fn discriminant(w: &Watcher) -> (r: u8) ensures r as int == watcher_variant(*w) { match w { Watcher::Native => 0, Watcher::Poll(_) => 1 } }
